@@ -87,20 +87,107 @@ class CollectionLoop:
         return self.model.parent.where(self.node)
 
 
-def helper_kind(repo, func, call):
-    """Classify a helper `h(processes)` of the form
-         for p in processes: if C(p): return K1
-         return K2
-    -> ('alive_any' | 'alive_all' | 'exit_all_zero' | 'exit_any_nonzero' | None, polarity)
-    meaning: helper(...) is True  <=>  <kind> has value `polarity`."""
-    h = repo.resolve_call(func, call)
-    if h is None:
-        return None
+# abstract process states: (is_alive, exitcode)
+PSTATES = {"alive": (True, None), "ok": (False, 0), "failed": (False, 1), "killed": (False, -9)}
+
+
+class _PredUnsupported(Exception):
+    pass
+
+
+def _eval_pred(e, pvar, state):
+    alive, code = state
+    if isinstance(e, ast.Constant):
+        return e.value
+    if isinstance(e, ast.UnaryOp) and isinstance(e.op, ast.Not):
+        return not _eval_pred(e.operand, pvar, state)
+    if isinstance(e, ast.UnaryOp) and isinstance(e.op, ast.USub):
+        return -_eval_pred(e.operand, pvar, state)
+    if isinstance(e, ast.BoolOp):
+        vals = [_eval_pred(v, pvar, state) for v in e.values]
+        if isinstance(e.op, ast.And):
+            for v in vals:
+                if not v:
+                    return v
+            return vals[-1]
+        for v in vals:
+            if v:
+                return v
+        return vals[-1]
+    if isinstance(e, ast.Call) and isinstance(e.func, ast.Attribute) and norm(e.func.value) == pvar and e.func.attr == "is_alive" and not e.args:
+        return alive
+    if isinstance(e, ast.Attribute) and norm(e.value) == pvar:
+        if e.attr == "exitcode":
+            return code
+        if e.attr == "is_alive":
+            return True  # a bound method object is always truthy
+        raise _PredUnsupported(norm(e))
+    if isinstance(e, (ast.Tuple, ast.List, ast.Set)):
+        return tuple(_eval_pred(x, pvar, state) for x in e.elts)
+    if isinstance(e, ast.Compare):
+        left = _eval_pred(e.left, pvar, state)
+        for op, r in zip(e.ops, e.comparators):
+            right = _eval_pred(r, pvar, state)
+            try:
+                if isinstance(op, ast.Eq):
+                    ok = left == right
+                elif isinstance(op, ast.NotEq):
+                    ok = left != right
+                elif isinstance(op, ast.Is):
+                    ok = left is right
+                elif isinstance(op, ast.IsNot):
+                    ok = left is not right
+                elif isinstance(op, ast.In):
+                    ok = left in right
+                elif isinstance(op, ast.NotIn):
+                    ok = left not in right
+                elif isinstance(op, ast.Lt):
+                    ok = left < right
+                elif isinstance(op, ast.LtE):
+                    ok = left <= right
+                elif isinstance(op, ast.Gt):
+                    ok = left > right
+                elif isinstance(op, ast.GtE):
+                    ok = left >= right
+                else:
+                    raise _PredUnsupported(type(op).__name__)
+            except TypeError:
+                return "TYPEERROR"
+            if not ok:
+                return False
+            left = right
+        return True
+    raise _PredUnsupported(norm(e))
+
+
+def helper_shape(h):
+    """-> (negated, pvar, pred_expr, iterable_param) with  helper(ps) == negated XOR (exists p in ps: pred(p)),
+    or None if the function is not a quantifier over its parameter."""
     body = [st for st in h.node.body if not (isinstance(st, ast.Expr) and isinstance(st.value, ast.Constant))]
+    if not h.params:
+        return None
+    par = h.params[0]
+    # form (b): return any(...)/all(...)/not any(...)
+    if len(body) == 1 and isinstance(body[0], ast.Return) and body[0].value is not None:
+        e = body[0].value
+        neg = False
+        while isinstance(e, ast.UnaryOp) and isinstance(e.op, ast.Not):
+            e = e.operand
+            neg = not neg
+        if isinstance(e, ast.Call) and isinstance(e.func, ast.Name) and e.func.id in ("any", "all") and len(e.args) == 1 and isinstance(e.args[0], (ast.GeneratorExp, ast.ListComp)):
+            g = e.args[0]
+            if len(g.generators) == 1 and not g.generators[0].ifs and norm(g.generators[0].iter) == par:
+                pvar = norm(g.generators[0].target)
+                if e.func.id == "any":
+                    return (neg, pvar, g.elt, par)
+                # all(P) == not exists(not P)
+                return (not neg, pvar, ast.UnaryOp(op=ast.Not(), operand=g.elt), par)
+        return None
+    # form (a): for p in ps: if C(p): return K1 ; return K2
     if len(body) != 2 or not isinstance(body[0], ast.For) or not isinstance(body[1], ast.Return):
         return None
     loop, final = body
-    if len(loop.body) != 1 or not isinstance(loop.body[0], ast.If) or loop.orelse:
+    if norm(loop.iter) != par or len(loop.body) != 1 or not isinstance(loop.body[0], ast.If) or loop.orelse:
         return None
     iff = loop.body[0]
     if len(iff.body) != 1 or not isinstance(iff.body[0], ast.Return) or iff.orelse:
@@ -109,37 +196,54 @@ def helper_kind(repo, func, call):
     k2 = const_value(final.value)
     if not isinstance(k1, bool) or not isinstance(k2, bool) or k1 == k2:
         return None
-    pvar = norm(loop.target)
-    test = iff.test
-    neg = False
-    while isinstance(test, ast.UnaryOp) and isinstance(test.op, ast.Not):
-        test = test.operand
-        neg = not neg
-    src = norm(test)
-    # predicate on one process
-    if src == f"{pvar}.is_alive()":
-        pred, ppol = "alive", not neg
-    elif isinstance(test, ast.Compare) and norm(test.left) == f"{pvar}.exitcode" and len(test.ops) == 1 and const_value(test.comparators[0]) == 0:
-        if isinstance(test.ops[0], ast.NotEq):
-            pred, ppol = "exit_zero", neg  # exitcode != 0  <=> not zero
-        elif isinstance(test.ops[0], ast.Eq):
-            pred, ppol = "exit_zero", not neg
-        else:
-            return None
-    else:
+    # helper == k1 iff exists p: C(p)
+    return ((not k1), norm(loop.target), iff.test, par)
+
+
+def helper_kind(repo, func, call):
+    """Classify a process-list predicate by evaluating its per-process condition on the four abstract
+    process states.  -> dict(kind=..., polarity=..., problem=None|str) or None if `call` is not such a helper.
+    kind/polarity: the helper returns True  <=>  <kind> == polarity, with kind in
+      'alive_any'      some process is alive
+      'exit_all_zero'  every process has exit code 0 (meaningful when no process is alive)
+      'dead_any'       some process is not alive"""
+    h = repo.resolve_call(func, call)
+    if h is None:
         return None
-    # helper == k1 iff exists p: pred(p) == ppol ; helper == k2 iff forall p: pred(p) != ppol
-    # express as a quantified fact that is True iff helper returns True
-    if k1 is True:
-        # True iff exists p with pred==ppol
-        if pred == "alive":
-            return ("alive_any", True) if ppol else ("alive_all", False)
-        return ("exit_any_nonzero", True) if not ppol else ("exit_any_zero", True)
-    else:
-        # True iff forall p: pred != ppol
-        if pred == "alive":
-            return ("alive_all", True) if not ppol else ("alive_any", False)
-        return ("exit_all_zero", True) if not ppol else ("exit_all_nonzero", True)
+    sh = helper_shape(h)
+    if sh is None:
+        return None
+    neg, pvar, pred, par = sh
+    try:
+        val = {name: _eval_pred(pred, pvar, st) for name, st in PSTATES.items()}
+    except _PredUnsupported:
+        return None
+    tv = {k: (bool(v) if v != "TYPEERROR" else "TYPEERROR") for k, v in val.items()}
+    out = {"helper": h, "table": tv, "problem": None}
+    dead = ("ok", "failed", "killed")
+    if all(tv[k] is True for k in tv) or all(tv[k] is False for k in tv):
+        out.update(kind="constant", polarity=True, problem=f"the per-process condition `{norm(pred)}` has the same value for every process state (alive / exit 0 / exit 1 / killed by signal): {tv}")
+        return out
+    if tv["alive"] is True and all(tv[k] is False for k in dead):
+        out.update(kind="alive_any", polarity=not neg)
+        return out
+    if tv["alive"] is False and all(tv[k] is True for k in dead):
+        out.update(kind="dead_any", polarity=not neg)
+        return out
+    # exit-code predicates: look at the dead states only
+    dv = tuple(tv[k] for k in dead)
+    if "TYPEERROR" in tv.values():
+        out.update(kind="exitcode", polarity=True, problem=f"the per-process condition `{norm(pred)}` raises TypeError for some process state: {tv}")
+        return out
+    if dv == (False, True, True):
+        out.update(kind="exit_all_zero", polarity=neg)  # exists nonzero; helper True <=> (neg xor exists) ; all_zero = not exists
+        return out
+    if dv == (True, False, False):
+        # exists p with exit 0  — not the needed universal statement
+        out.update(kind="exit_any_zero", polarity=not neg, problem=None)
+        return out
+    out.update(kind="exitcode", polarity=True, problem=f"the per-process exit-code condition `{norm(pred)}` does not separate clean exit (0) from abnormal termination (positive code, death by signal): {tv}")
+    return out
 
 
 def test_facts(repo, func, expr, pol):
@@ -150,18 +254,12 @@ def test_facts(repo, func, expr, pol):
         pol = not pol
     if isinstance(expr, ast.Call):
         hk = helper_kind(repo, func, expr)
-        if hk:
-            kind, kpol = hk
-            val = pol if kpol else (not pol)
-            # normalise kinds
-            if kind == "alive_any":
+        if hk and not hk["problem"]:
+            val = pol if hk["polarity"] else (not pol)
+            if hk["kind"] == "alive_any":
                 facts["alive_any"] = val
-            elif kind == "exit_all_zero":
+            elif hk["kind"] == "exit_all_zero":
                 facts["exit_all_zero"] = val
-            elif kind == "exit_any_nonzero":
-                facts["exit_all_zero"] = not val
-            elif kind == "alive_all" and val is True:
-                facts["alive_any"] = True
     return facts
 
 
